@@ -14,20 +14,21 @@ from .common.c17pipe import PipeConnector, make_server
 
 PROPERTY = "C17"
 LEAN_MODULES = ["AioProps.C17"]
-THEOREMS_TODO = [
+THEOREMS = [
     "Aio.C17.secrets_confined",
+    "Aio.C17.cookie_pairs_confined",
     "Aio.C17.caller_secret_never_leaves_first_origin",
     "Aio.C17.no_resurrection",
     "Aio.C17.jar_reselected_each_hop",
-    "Aio.C17.method_body_table",
+    "Aio.C17.method_body_table_partial",
     "Aio.C17.at_most_max_redirects_requests",
     "Aio.C17.zero_max_redirects_is_unlimited",
+    "Aio.C17.only_http_redirects_followed",
     "Aio.C17.non_http_refused",
     "Aio.C17.history_in_order_and_released_partial",
-    "Aio.C17.responses_all_disposed",
     "Aio.C17.f18_self_in_history",
+    "Aio.C17.responses_all_disposed",
 ]
-THEOREMS = []
 RULE = ("a case = (method, start URL over 7 origins [same host other port / other scheme / other host / sub-domain / IP] "
         "with or without embedded credentials, caller headers incl. Authorization / Cookie / Proxy-Authorization / Host / "
         "Content-Length / Content-Type with duplicates, per-request cookies, initial jar cookies, params, body kind "
